@@ -95,6 +95,12 @@ pub fn exp_mul(x: Q, y: Q, mode: Mode) -> (Exp, Info) {
         return (Exp::Value { num, scale: (x.s + y.s) as u32, lo: 0, hi: 18 }, info);
     }
     let e = finish(&r, scale, &mut info);
+    // p + q > 18: the statement fixes the value ("rounded to 18 fractional digits"),
+    // not the representation; a representation with fewer (never more) digits is accepted
+    let e = match e {
+        Exp::Exact(c, s) if x.s + y.s > 18 => Exp::Value { num: Big::from_i128(c), scale: s as u32, lo: 0, hi: 18 },
+        o => o,
+    };
     (e, info)
 }
 
@@ -247,8 +253,10 @@ pub fn exp_round(x: Q, n: i8, mode: Mode) -> (Exp, Info) {
     let (k, f) = round_exact_cls(&x.big(), &Big::pow10(shift), mode);
     info.inexact = f != Frac::Zero;
     info.tie = f == Frac::Half;
+    // the statement fixes the value (the multiple of 10^-n selected by the mode); the
+    // result may not carry more than max(n, 0) fractional digits, fewer are accepted
     if n >= 0 {
-        let e = Exp::Exact(k.to_i128().unwrap(), n as u8);
+        let e = Exp::Value { num: k, scale: n as u32, lo: 0, hi: n as u8 };
         (zero_ok(e, &k), info)
     } else {
         let r = k.mul(&Big::pow10((-(n as i32)) as u32));
